@@ -202,6 +202,43 @@ let trace_file path =
   with End_of_file -> ());
   close_in ic
 
+(* configuration: a counted integer stream, see harness/c12.py (enc_case) *)
+let config_mode line =
+  let st = ref (ints line) in
+  let next () = match !st with x :: r -> st := r; x | [] -> failwith "short config input" in
+  let nat () = nat_of_int (next ()) in
+  let rec times n f = if n = 0 then [] else let x = f () in x :: times (n - 1) f in
+  let pairs () = let n = next () in times n (fun () -> let k = nat () in let v = nat () in (k, v)) in
+  let nats () = let n = next () in times n nat in
+  let sev = nat () in
+  let sevlist = nats () in
+  let nrules = next () in
+  let rules = times nrules (fun () ->
+    let uid = nat () in let dep = next () <> 0 in
+    let groups = nats () in let conf = nats () in let dict = pairs () in let opts = pairs () in
+    let sv = next () in
+    { o_uid = uid; o_groups = groups; o_conf = conf; o_dict = dict; o_opts = opts;
+      o_sev = (if sv < 0 then None else Some (nat_of_int sv)); o_deprecated = dep }) in
+  let section () =
+    let g = if next () <> 0 then Some (pairs ()) else None in
+    let gr = if next () <> 0 then (let n = next () in Some (times n (fun () -> let name = nat () in let e = pairs () in (name, e)))) else None in
+    let n = next () in
+    let rs = times n (fun () -> let uid = nat () in let e = pairs () in (uid, e)) in
+    { s_global = g; s_group = gr; s_rules = rs } in
+  let optsec () = if next () <> 0 then Some (section ()) else None in
+  let nfiles = next () in
+  let files = times nfiles optsec in
+  let stage () = match next () with 0 -> None | _ -> Some (optsec ()) in
+  let fl = stage () in
+  let fr = stage () in
+  match configure_rules sev sevlist (merge_configs files) fl fr rules with
+  | CError -> "ERR"
+  | COk rs ->
+    String.concat " | " (List.map (fun o ->
+      Printf.sprintf "%d : %s : %s : %s" (int_of_nat o.o_uid) (match o.o_sev with None -> "-" | Some n -> string_of_int (int_of_nat n))
+        (String.concat " " (List.map (fun (k, v) -> string_of_int (int_of_nat k) ^ "=" ^ string_of_int (int_of_nat v)) o.o_dict))
+        (String.concat " " (List.map (fun (k, v) -> string_of_int (int_of_nat k) ^ "=" ^ string_of_int (int_of_nat v)) o.o_opts))) rs)
+
 (* token index: "LOGICAL PARSER COMMA OPENPAREN -1 b s b s ... -1 qb qs qb qs ... -1" -> positions per query *)
 let index_mode line =
   let rec pairs = function a :: b :: r -> (nat_of_int a, nat_of_int b) :: pairs r | _ -> [] in
@@ -217,6 +254,7 @@ let () =
   let mode = if Array.length Sys.argv > 1 then Sys.argv.(1) else "tokenizer" in
   let f = match mode with
     | "tokenizer" -> tokenizer
+    | "config" -> config_mode
     | "index" -> index_mode
     | "wb" -> wb_mode
     | "report" -> report_mode
